@@ -318,69 +318,118 @@ def r5(ctx):
         ctx.obligation(ok)
         if not ok:
             ctx.violation("flat/%s" % short(name, 1), ctx.where(name), "%s must separate values by %r and rows by %r; found %r" % (short(name, 1), rs, ls, fs))
-    fe = ctx.anchor_hir(FMT["flat"] + "::format_element")
-    # is_last => the value alone; otherwise value followed by the value separator
-    last_param = [p["id"] for p in ctx.prog.fns[FMT["flat"] + "::format_element"].get("params", []) if p.get("name") == "is_last"]
-    ifs = find_ifs(fe, lambda c: c["k"] == "Path" and c.get("rk") == "Local" and c["res"] in last_param)
-    ok = False
-    if len(ifs) == 1 and ifs[0][1] is not None and ifs[0][2] is not None:
-        def cell(b):
-            ts = [tt for tt, _ in fmt_templates(b)]
-            uses = [render(x) for x in walk_exprs(b) if x["k"] == "Field" and render(x["e"]) == "self"]
-            return (ts, sorted(set(uses)), "record" in render(b))
-        pos, neg = cell(ifs[0][1]), cell(ifs[0][2])
-        ok = pos[2] and neg[2] and not pos[1] and pos[0] in ([], ["{}"]) and neg[1] == ["self.record_separator"] and neg[0] in (["{}{}"], [])
-    ctx.obligation(ok)
-    if not ok:
-        ctx.violation("flat/format_element", ctx.where(FMT["flat"] + "::format_element"), "a flat cell is the value, followed by the value separator unless it is the last cell")
-    re_ = ctx.anchor_hir(FMT["flat"] + "::row_ended")
-    ok = "self.line_separator" in render(re_)
-    ctx.obligation(ok)
-    if not ok:
-        ctx.violation("flat/row_ended", ctx.where(FMT["flat"] + "::row_ended"), "a flat row must end with the row separator")
-    # write_row: start, every item in order (name, value, last one flagged), end - the call trace of write_row on rows of
-    # 0, 1 and 3 cells is read by the finite interpreter
+    # a flat cell: the value, followed by the value separator unless it is the last cell; a flat row ends with the row
+    # separator; no header / footer / row start: the hooks of FlatWriter evaluated with record_separator = "<RS>",
+    # line_separator = Some('<LS>') / None
     import interp
-    wfn = WRITER + "::write_row"
-    wr = ctx.anchor_hir(wfn)
-    ps = ctx.prog.fns[wfn]["params"]
-    ok = len(ps) == 3
-    calls = None
-    if ok:
-        for items in ([], [("a", "1")], [("a", "1"), ("b", "2"), ("c", "3")]):
-            eff = []
+    fl = FMT["flat"]
 
-            def call(node, recv, args, it, env, eff=eff):
-                m = node.get("m")
-                if m and m.startswith("write_row_"):
-                    eff.append((m,) + tuple(a for a in args if isinstance(a, (bool, str))))
-                    return (interp.V("Result::Ok", [()]),)
-                return None
-            env = {ps[0]["id"]: {"formatter": interp.Opaque("formatter")}, ps[1]["id"]: interp.Opaque("writer"), ps[2]["id"]: list(items)}
-            try:
-                res = interp.Interp(call=call, prog=ctx.prog).run(wr, env)
-            except interp.Undecided as e:
-                ok = False
-                calls = "cannot evaluate write_row: %s" % e
-                break
-            want = [("write_row_start",)] + [("write_row_item", k, v, i == len(items) - 1) for i, (k, v) in enumerate(items)] + [("write_row_end",)]
-            if eff != want or not (isinstance(res, interp.V) and res.name == "Result::Ok"):
-                ok = False
-                calls = "for a row of %d cells the calls are %s" % (len(items), eff)
-                break
-    ctx.obligation(ok)
-    if not ok:
-        ctx.violation("writer/write_row", ctx.where(wfn), "write_row must emit row start, every item in order (last one flagged), row end; %s" % calls)
-    # the five writer methods call their own formatter hook
-    hooks = {"write_header": "header", "write_footer": "footer", "write_row_separator": "row_separator",
-             "write_row_start": "row_started", "write_row_end": "row_ended", "write_row_item": "format_element"}
-    for m, hook in hooks.items():
-        h = ctx.anchor_hir(WRITER + "::" + m)
-        hs = [c["m"] for c in walk_exprs(h) if c["k"] == "MCall" and c["m"] in hooks.values()]
-        ok = hs == [hook]
+    def flat_hook(name, args, line_sep=interp.some("L")):
+        fn = fl + "::" + name
+        h = ctx.anchor_hir(fn)
+        ps = ctx.prog.fns[fn]["params"]
+        env = {ps[0]["id"]: {"record_separator": "<RS>", "line_separator": line_sep}}
+        for p_, a_ in zip(ps[1:], args):
+            if "id" in p_:
+                env[p_["id"]] = a_
+
+        def call(node, recv, argv, it, env_):
+            if str(node.get("callee", "")).endswith("String::from") or str(node.get("callee", "")).endswith("From<char>>::from"):
+                return (str(argv[0]),) if argv and isinstance(argv[0], str) else None
+            return None
+        return interp.Interp(prog=ctx.prog, call=call).run(h, env)
+    try:
+        ok = flat_hook("format_element", ["col", "v", True]) == interp.some("v") and flat_hook("format_element", ["col", "v", False]) == interp.some("v<RS>")
         ctx.obligation(ok)
         if not ok:
-            ctx.violation("writer/%s" % m, ctx.where(WRITER + "::" + m), "%s must write the formatter's %s; it calls %s" % (m, hook, hs))
+            ctx.violation("flat/format_element", ctx.where(fl + "::format_element"), "a flat cell is the value, followed by the value separator unless it is the last cell; "
+                          "last: %s, not last: %s" % (flat_hook("format_element", ["col", "v", True]), flat_hook("format_element", ["col", "v", False])))
+        ok = flat_hook("row_ended", []) == interp.some("L") and flat_hook("row_ended", [], interp.NONE) == interp.NONE
+        ctx.obligation(ok)
+        if not ok:
+            ctx.violation("flat/row_ended", ctx.where(fl + "::row_ended"), "a flat row must end with the row separator (%s)" % (flat_hook("row_ended", []),))
+        for hk in ("header", "footer", "row_started", "row_separator"):
+            if fl + "::" + hk in ctx.prog.fns:
+                okh = flat_hook(hk, []) == interp.NONE
+                ctx.obligation(okh)
+                if not okh:
+                    ctx.violation("flat/%s" % hk, ctx.where(fl + "::" + hk), "flat formats have no %s text" % hk)
+    except interp.Undecided as e:
+        ctx.obligation(False)
+        ctx.violation("flat/format_element", ctx.where(fl + "::format_element"), "cannot evaluate the flat formatter: %s" % e)
+    # the writer protocol: what reaches the output for a header, a row of 0 / 1 / 3 cells, a separator and a footer is read by
+    # the finite interpreter with the formatter replaced by a stand-in whose hooks return tagged texts (None for an absent
+    # hook) and the output by a recorder: write_row = start, every cell in order (last one flagged), end
+    import interp
+
+    def writer_trace(method, args, absent=()):
+        fn = WRITER + "::" + method
+        h = ctx.anchor_hir(fn)
+        ps = ctx.prog.fns[fn]["params"]
+        out = []
+
+        def call(node, recv, argv, it, env):
+            m = node.get("m")
+            if isinstance(recv, dict) and "__formatter" in recv:
+                if m == "format_element":
+                    # the hook returns Option<String> (a formatter may emit nothing for a cell)
+                    return (interp.some(("<cell %s=%s%s>" % (argv[0], argv[1], " last" if argv[2] else "")) if len(argv) == 3 else "<cell ?>"),)
+                if m in absent:
+                    return (interp.NONE,)
+                return (interp.some("<%s>" % m),)
+            if isinstance(recv, dict) and "__writer" in recv and m in ("write_all", "write_str", "write"):
+                out.append(argv[0])
+                return (interp.V("Result::Ok", [()]),)
+            return None
+
+        def effect(node, it, env):
+            if node["k"] == "MCall" and node["m"] == "write_fmt":
+                texts = []
+                for y in walk_exprs(node):
+                    if y["k"] == "Path" and y.get("rk") == "Local":
+                        try:
+                            v = it.ev(y, env)
+                        except interp.Undecided:
+                            continue
+                        if isinstance(v, str):
+                            texts.append(v)
+                out.extend(dict.fromkeys(texts))
+                return (interp.V("Result::Ok", [()]),)
+            return None
+        env = {ps[0]["id"]: {"formatter": {"__formatter": True}}, ps[1]["id"]: {"__writer": True}}
+        for p_, a_ in zip(ps[2:], args):
+            env[p_["id"]] = a_
+        res = interp.Interp(call=call, effect=effect, prog=ctx.prog).run(h, env)
+        return out, res
+    try:
+        for items in ([], [("a", "1")], [("a", "1"), ("b", "2"), ("c", "3")]):
+            got, res = writer_trace("write_row", [list(items)])
+            want_ = ["<row_started>"] + ["<cell %s=%s%s>" % (k, v, " last" if i == len(items) - 1 else "") for i, (k, v) in enumerate(items)] + ["<row_ended>"]
+            ok = got == want_ and isinstance(res, interp.V) and res.name == "Result::Ok"
+            ctx.obligation(ok)
+            if not ok:
+                ctx.violation("writer/write_row", ctx.where(WRITER + "::write_row"), "write_row must emit row start, every item in order (last one flagged), row end; for a row of %d cells the output is %s" % (len(items), got))
+                break
+        got, res = writer_trace("write_row", [[("a", "1")]], absent=("row_started", "row_ended"))
+        ok = got == ["<cell a=1 last>"]
+        ctx.obligation(ok)
+        if not ok:
+            ctx.violation("writer/write_row", ctx.where(WRITER + "::write_row"), "a formatter without row start / end texts must still get every cell written; output %s" % got)
+        for m_, hook in (("write_header", "header"), ("write_footer", "footer"), ("write_row_separator", "row_separator")):
+            got, res = writer_trace(m_, [])
+            ok = got == ["<%s>" % hook]
+            ctx.obligation(ok)
+            if not ok:
+                ctx.violation("writer/%s" % m_, ctx.where(WRITER + "::" + m_), "%s must write the formatter's %s; it writes %s" % (m_, hook, got))
+            got, res = writer_trace(m_, [], absent=(hook,))
+            ok = got == [] and isinstance(res, interp.V) and res.name == "Result::Ok"
+            ctx.obligation(ok)
+            if not ok:
+                ctx.violation("writer/%s" % m_, ctx.where(WRITER + "::" + m_), "%s must write nothing and succeed when the formatter has no %s; it writes %s" % (m_, hook, got))
+    except interp.Undecided as e:
+        ctx.obligation(False)
+        ctx.violation("writer/write_row", ctx.where(WRITER + "::write_row"), "cannot evaluate the results writer: %s" % e)
+    hooks = ["header", "footer", "row_separator", "row_started", "row_ended", "format_element"]
     sel = ctx.anchor_hir("output::select_formatter")
     ms = find_matches(sel, min_arms=6)
     ok = False
